@@ -41,7 +41,12 @@ def run_case(c):
         eq = bhe.to_single()
         return {"ok": True, "identity": eq is bhe}
     if kind != "cx":
-        extra = {"R_fp_orig": float(bhe.R_fp)}
+        # film coefficient of one tube for the requested numbers, straight from pygfunction: two U-tubes in parallel share the borehole's
+        # flow, two in series carry all of it
+        import pygfunction as gt
+        m_pipe = c["m"] / 2.0 if kind == "dp" else c["m"]
+        h_ind = gt.pipes.convective_heat_transfer_coefficient_circular_pipe(m_pipe, c["ri"], fluid.mu, fluid.rho, fluid.k, fluid.cp, 1e-6)
+        extra = {"R_fp_orig": float(bhe.R_fp), "h_tube": float(h_ind)}
     Rb = float(bhe.calc_effective_borehole_resistance())
     eq = bhe.to_single()
     Rb2 = float(eq.calc_effective_borehole_resistance())
